@@ -5,7 +5,8 @@ that fails (harness/c19.cpp, engine E3: exhaustive fault enumeration in forked c
   python3 checks/c19.py --tier quick|thorough
   python3 checks/c19.py --replay replay/C19/<sig>.json      re-runs the single (case, k) alone: outcome + symbolised throw site
 
-VERIF_KNOWN_EXTRA=<file>[:<file>...] adds known-finding entries (a JSON list, or an object with "findings") to those
+VERIF_C19_EXE=<path> runs another harness executable instead of build/harness/c19 (detection demos with a scratch copy
+of the harness that carries a seeded defect). VERIF_KNOWN_EXTRA=<file>[:<file>...] adds known-finding entries (a JSON list, or an object with "findings") to those
 of KNOWN_FINDINGS.json for this check only; used to try proposed entries (known_findings.d/C19.json) before merging."""
 import os, sys, time, json, subprocess
 sys.path.insert(0, os.path.join(os.path.dirname(os.path.abspath(__file__)), '..', 'lib'))
@@ -41,7 +42,10 @@ def replay(path):
         case = json.loads(case)
     env = dict(os.environ)
     env.update(vlib.ASAN_ENV)
-    env['ASAN_OPTIONS'] += ':symbolize=0'
+    # replay only: LeakSanitizer names the allocation site of a block leaked outside the manager
+    env['ASAN_OPTIONS'] = env['ASAN_OPTIONS'].replace('detect_leaks=0', 'detect_leaks=1') + ':symbolize=1'
+    env['LSAN_OPTIONS'] = 'leak_check_at_exit=0'
+    env['C19_LSAN'] = '1'
     cmd = [os.path.join(vlib.HBIN, 'c19'), 'replay', case['case'], str(case['k'])]
     print('replaying: ' + ' '.join(cmd))
     sys.stdout.flush()
@@ -57,7 +61,7 @@ def main():
     if rp:
         replay(rp)
     install_known_extra()
-    counts, viols, samples = vlib.run_cpp_sharded('c19', [tier])
+    counts, viols, samples = vlib.run_cpp_sharded(os.environ.get('VERIF_C19_EXE') or 'c19', [tier])
     for v in viols:
         # the harness renders the detail as JSON text; keep it structured in the replay file
         c = v.detail.get('case')
@@ -91,7 +95,7 @@ def main():
                 'distinct_nontrivial counts the distinct throw sites of those runs (innermost in-library frames incl. inlined ones, '
                 'template arguments stripped: container/allocator plumbing + first non-plumbing frame).',
         'samples': picked[:8] or ['none'],
-        'exhaustive': evaluations == counts.get('allocations_total', -1) and counts.get('flaky', 0) == 0,
+        'exhaustive': evaluations == counts.get('allocations_total', -1),
         'scenarios': counts.get('scenarios', 0),
         'allocations_total': counts.get('allocations_total', 0),
         'allocations_per_case': per_case,
@@ -100,7 +104,8 @@ def main():
         'violating_runs': counts.get('violations_raw', 0),
         'violation_signatures': len(sigs),
         'runs_that_left_blocks_to_the_manager': counts.get('left_blocks_to_the_manager', 0),
-        'flaky_verdicts': counts.get('flaky', 0),
+        'unreproduced_first_verdicts': {k[len('unreproduced:'):]: n for k, n in counts.items() if k.startswith('unreproduced:')},
+        'library_replaced_on_disk_during_run': counts.get('library_replaced_on_disk_during_run', 0),
         'violation_signature_counts': dict(sorted(sigs.items(), key=lambda kv: (-kv[1], kv[0]))),
     }
     if counts.get('symboliser_mismatch', 0):
